@@ -1,6 +1,6 @@
 CONSTANTS
   Keys = {97, 98, 104, 105, 109, 122, 49, 59, 45, 91, 92, 64, 32, 233, 1092, 9, 13, 27, 127,
-          1114113, 1114117, 1114121, 1114123, 1114125, 1114129, 1114135, 1114136, 1114142, 1114165, 1114193}
+          1114113, 1114117, 1114121, 1114123, 1114125, 1114129, 1114135, 1114136, 1114142, 1114165, 1114180, 1114193}
 SPECIFICATION Spec
 INVARIANTS LegacyRoundTrip KittyRoundTrip SelfMatch XPCompatible
 CHECK_DEADLOCK FALSE
